@@ -42,6 +42,17 @@ CLAIMED = {
          "(measured, else tool error). Known finding F11/C15 (unsigned-primitive-typed division results) matched by form and input class.",
     technique="TLA+ form inventory + register machine, TLC trace validation of recorded call forms",
     design="5.C15"),
+ "C19": dict(
+    text="The same TLC-generated and seeded cases of the C01/C02/C09 families are executed by the harness built in four configurations "
+         "(64-bit debug, release without debug assertions, force_bits=32, no_std); every configuration's trace is validated by the family's "
+         "definition monitor, and a TLC monitor over the merged traces (Trace_C19) requires identical outcomes per case. Serialization: the "
+         "binary integer format is specified byte for byte in TLA+ (SerdeDef: LEB128 frame, little-endian magnitude, sign in the length "
+         "parity) with no reference to a word size; serde_json/postcard round trips of UBig/IBig/FBig/DBig/RBig/Relaxed and decoding of "
+         "mutated, zero-padded, unreduced, unnormalized and zero-denominator streams must give an error or a canonical value, never a panic.",
+    note="Trusted: TLC, cargo/rustc producing the four builds from /repo's working tree. force_bits=16 does not build (known finding F26). "
+         "log2 bounds per build are checked by C12.",
+    technique="TLC trace validation of one case file under four build configurations + TLA+ wire-format definition",
+    design="5.C19"),
 }
 NA_REASON = "check not built yet in this round (planned, see DESIGN.md section 9)"
 
